@@ -259,6 +259,7 @@ def RState.updLastReturn (s : RState) (f : Item Vals → Item Vals) : RState :=
 /-- `Bundle.Validate()` -/
 def bundleValidate (b : Bundle Vals) : Option String :=
   if b.checks.isEmpty && b.returns.isEmpty then some "entries"
+  else if !b.checks.isEmpty && !b.returns.isEmpty then some "entries"   -- forward or return items, not both
   else if !b.checks.isEmpty then
     b.checks.findSome? (fun cd =>
       if cd.detail.i "AddendumCount" ≠ ((cd.addA.length + cd.addB.length + cd.addC.length : Nat) : Int) then some "AddendumCount"
